@@ -61,6 +61,9 @@ def gen_history(rng, n_ops: int) -> List[tuple]:
                 for k in rng.sample(KEYS, rng.choice([1, 1, 2, 3])):
                     # falsy values are values too; 1 / True / 1.0 and 0 / False are equal but not the same value
                     d[k] = rng.choice([1, 2, 3, 0, "fast", "slow", "x", "", True, False, 1.0, 1, 0])
+                    if rng.random() < 0.25:
+                        # ... and so are containers of them, at any depth ([1] / [True] / [1.0]; wave-10 review of fb34376)
+                        d[k] = rng.choice([[1], [True], [1.0], (1,), (True,), {"n": 1}, {"n": 1.0}, {"n": True}, [[0]], [[False]], [1, "x"], [True, "x"]])
             last_q = d
             q_hist.append(d)
             ops.append(("qmeta", s, d))
@@ -335,7 +338,7 @@ class Runner:
                         want = md[k]
                         break
                 got = self.lookup(s, k)
-                if got != want or type(got) is not type(want):
+                if got != want or type(got) is not type(want) or (want is not None and pyval_sexpr(got) != pyval_sexpr(want)):
                     ctx.violate({**self.case, "step": step_no, "stream": i, "key": k, "got": repr(got), "want": repr(want)},
                                 "C16: lookup is not the value most recently set on the stream's own derivation path")
             # C16: invisible to dump / hash
